@@ -247,7 +247,9 @@ def run(chk):
         "Lean 4.33.0 kernel", "axioms propext/Classical.choice/Quot.sound only (audited)",
         "harness/props/c26_models.py (abstraction of real targets and results)",
         "harness/props/c26_sweep.py snapshot function (what counts as 'the code and its symbol tables')"]
+    t0 = time.time()
     chk.lean()
+    chk.cov["timing_s"] = {"lean_build_and_audit": round(time.time() - t0, 1)}
     cwd = os.getcwd()
     scratch = S.scratch_dir()
     try:
@@ -283,7 +285,7 @@ def _run(chk, quick, rng, findings):
                        where=res.get("where"), diff=res.get("diff"))
             report(rec, "corpus/" + os.path.basename(path))
     # -- correspondence of the modelled transformations -----------------------------------------------
-    cases = list(model_cases(chk, rng, 35 if quick else 300))
+    cases = list(model_cases(chk, rng, 25 if quick else 300))
     outs = driver("C26", [c["line"] for c in cases])
     dist = collections.Counter()
     for c, mo in zip(cases, outs):
@@ -306,8 +308,9 @@ def _run(chk, quick, rng, findings):
             chk.correspondence_broken(f"{c['kind']} model differs from the real apply()", c["desc"] + [c["line"]],
                                       mo, c["impl"])
     chk.cov["model_distribution"] = dict(dist)
+    chk.cov["timing_s"]["corpus_and_models"] = round(time.time() - t_start, 1)
     # -- the sweep (exploration) ----------------------------------------------------------------------
-    budget = (105 if quick else 1380) - (time.time() - t_start)
+    budget = (75 if quick else 1320) - (time.time() - t_start)
     specs = S.program_specs(rng, 2 if quick else 6)
     specs += [_spec_of(n) for n in EXTRA]
     if quick:
@@ -356,6 +359,7 @@ def _run(chk, quick, rng, findings):
     }
     chk.cov["other_exceptions_with_mutation"] = other
     chk.cov["corpus_witnesses"] = n_corpus
+    chk.cov["timing_s"]["sweep"] = round(time.time() - t0, 1)
     # -- known findings --------------------------------------------------------------------------------
     for f in findings:
         res = rerun(f["witness"])
